@@ -512,13 +512,15 @@ class String(FieldValidator[_P, str], Generic[_P]):
             self.validate_one(value)
         data = value.encode("ascii")
         setattr(obj, self._private_name, data)
-        if issubclass(self._ctype, ctypes.Array) and len(data) + 1 < self.len:
+        # (the text is stored up to its first NUL, should it contain one)
+        stored = len(data.split(b"\0", 1)[0])
+        if issubclass(self._ctype, ctypes.Array) and stored + 1 < self.len:
             # clear what an earlier, longer value left behind the terminator
             field = getattr(type(obj), self._private_name)
             ctypes.memset(
-                ctypes.addressof(obj) + field.offset + len(data) + 1,
+                ctypes.addressof(obj) + field.offset + stored + 1,
                 0,
-                self.len - len(data) - 1,
+                self.len - stored - 1,
             )
 
     def validate_one(self, value: str):
